@@ -345,7 +345,7 @@ def main():
     total_cells = 0
     for c, r in zip(cases, res):
         if "cells" not in r:
-            chk.note_inconclusive(f"grid {c['variant']}/{c['pool']}: {str(r)[:300]}")
+            chk.note_inconclusive(f"grid {c['variant']}/{c['pool']}: {str(r)[:300]}", fatal=True)
             chk.case_done()
             continue
         total_cells += r["cells"]
